@@ -894,6 +894,20 @@ void run(Src &mainSrc, Case &c)
             c.cls("shape:" + l);
         }
     }
+    // import references on components / units that are not imports (decisions from the tail of the pre-drawn block, so that
+    // the sequential decisions and every saved tape stay what they were)
+    const unsigned nLocalRefs = static_cast<unsigned>(late.tail(0, 8)) >= 5 ? static_cast<unsigned>(late.tail(0, 8)) - 4 : 0;
+    std::string localRefs;
+    for (unsigned i = 0; i < nLocalRefs; ++i) {
+        std::string l = addLocalImportReference(spec, late.tail(1 + i, 1u << 20), "lref_" + std::to_string(i));
+        if (!l.empty()) {
+            localRefs += (localRefs.empty() ? "" : ", ") + l;
+        }
+    }
+    const bool localRefViaSource = late.tail(4, 2) == 1;
+    if (!localRefs.empty()) {
+        c.cls("local-import-reference");
+    }
     Loc loc = chooseLoc(spec, late, {wantKind});
     if (loc.kind != wantKind) {
         loc = chooseLoc(spec, late, kinds);
@@ -915,6 +929,7 @@ void run(Src &mainSrc, Case &c)
     std::vector<ModelPtr> keepModels;
     auto construct = [&]() {
         Built b = buildApi(spec, nullptr);
+        applyLocalImportReferences(spec, b, localRefViaSource);
         for (const auto &p : unlinked) {
             // what a user gets who names the units of a variable and never calls linkUnits()
             auto v = b.vars[static_cast<size_t>(p.first)][static_cast<size_t>(p.second)];
@@ -965,7 +980,7 @@ void run(Src &mainSrc, Case &c)
 
     // ---- clone
     EntityPtr clone = cloneOf(orig, kind);
-    c.text = "cloned entity: " + locText(spec, loc) + "\nshape transformations: " + (shapes.empty() ? "none" : shapes) + (unlinked.empty() ? "" : "\n" + std::to_string(unlinked.size()) + " variables hold a fresh units object of the right name instead of the model's (never linked)")
+    c.text = "cloned entity: " + locText(spec, loc) + "\nshape transformations: " + (shapes.empty() ? "none" : shapes) + (localRefs.empty() ? "" : "\nimport reference without import source (" + std::string(localRefViaSource ? "source set, reference set, source removed" : "set directly") + ") on: " + localRefs) + (unlinked.empty() ? "" : "\n" + std::to_string(unlinked.size()) + " variables hold a fresh units object of the right name instead of the model's (never linked)")
              + (resolveImports ? "\nimport sources have a model attached" : "") + (probeKnown ? "\n(listed findings are asserted in this case)" : "") + "\n--- model ---\n" + specToText(spec);
     c.cls("entity:" + type);
     if (hasUnsetOrder) c.cls("reset-without-order");
